@@ -286,7 +286,8 @@ static inline Val ref_component(CompSpec const &c, Sys const &s)
       V3 r2 = G[2].com();
       if (norm(disp(r1, r2)) < 1e-6) out.undefined = "null-axis";
       e = unit(disp(r1, r2));
-      if (t == "distanceZ") d = disp(0.5 * (r1 + r2), r); else d = disp(r1, r);
+      // the midpoint is that of the minimum-image vector r1 -> r2 (so that a lattice translation of either group changes nothing)
+      if (t == "distanceZ") d = disp(r1 + 0.5 * disp(r1, r2), r); else d = disp(r1, r);
     } else d = disp(r1, r);
     proj = dot(e, d);
     if (t == "distanceZ") {
